@@ -12,7 +12,7 @@ LAKE_TARGETS = ['Pysmi.Props.C16']
 THEOREMS = ['Pysmi.Imports.C16_converted_absent', 'Pysmi.Imports.C16_converted_present', 'Pysmi.Imports.C16_others_kept',
             'Pysmi.Imports.C16_convert_idempotent', 'Pysmi.Imports.symbolsOf_convert',
             'Pysmi.Generated.Smiv1.C16_targets_final', 'Pysmi.Generated.Smiv1.C16_targets_not_smiv1',
-            'Pysmi.Generated.Smiv1.C16_every_v1_symbol_has_home', 'Pysmi.Generated.Smiv1.C16_type_map']
+            'Pysmi.Generated.Smiv1.C16_every_v1_symbol_has_home', 'Pysmi.Generated.Smiv1.C16_type_map', 'Pysmi.Oid.C16_trap_oid']
 TECHNIQUE = ('Lean 4 theorems about a model of the import rewriting of both generators (for every import dict: converted symbols leave '
              'their SMIv1 module, their replacements are imported, other imports stay, a second pass changes nothing) under a table '
              'condition decided by the kernel on convertImportv2 regenerated from the source; kernel-decided facts about the regenerated '
@@ -22,7 +22,7 @@ LEVEL_TEXT = ('Proved in Lean: the import-rewriting statements for every import 
               'replacement is itself replaceable, which the kernel decides on the regenerated table; no replacement lives in an SMIv1-only '
               'module; the SMIv1 base symbols the property names are in the table of every module that defines them; Counter / Gauge / '
               'NetworkAddress / INTEGER name Counter32 / Gauge32 / IpAddress / Integer32 in the three type tables and TRAP-TYPE is imported as '
-              'NotificationType. NOT proved: that the generators produce equal records (OIDs, kinds, node types, references, maximum access, '
+              'NotificationType; the TRAP-TYPE OID enterprise ++ [0, n] is the OID that { enterprise 0 n } denotes (over the OID resolver model of C01). NOT proved: that the generators produce equal records (OIDs, kinds, node types, references, maximum access, '
               'trap OID enterprise.0.n) for an SMIv1 module and its transliteration - no Lean model of genObjectType / genTrapType joins the '
               'two ASTs; this is decided by the oracle over generated pairs (partial). SMIv1 INDEX by type is a recorded finding.')
 LEVEL_NOTE = 'Trusted: Lean kernel + standard axioms; translate.py (tables read from the classes); the SMIv1 generator and its transliteration; harness.'
